@@ -30,6 +30,23 @@ theorem C26_entries_match_peer (v : Version) (tls : Bool) (eha : Addr) (ops : Li
   · exact h.ixEnt e he
   · exact h.cxEnt e he
 
+/-- **C26, one entry per connection**: two entries of the table never wrap the same socket — if they
+do they are the same entry. -/
+theorem C26_no_shared_socket (v : Version) (tls : Bool) (eha : Addr) (ops : List Op) :
+    ∀ e1 ∈ (run v (init tls eha) ops).ixes, ∀ e2 ∈ (run v (init tls eha) ops).ixes,
+      e1.2.sock = e2.2.sock → e1 = e2 := by
+  intro e1 h1 e2 h2 hs
+  have h := inv_run v _ ops (inv_init tls eha)
+  have p1 := (h.ixEnt e1 h1).2
+  have p2 := (h.ixEnt e2 h2).2
+  rw [hs] at p1
+  have hk : e1.1 = e2.1 := Option.some.inj (p1.symm.trans p2)
+  have g1 := get?_of_mem_nodup h.ixKeys (show (e1.1, e1.2) ∈ _ from h1)
+  have g2 := get?_of_mem_nodup h.ixKeys (show (e2.1, e2.2) ∈ _ from h2)
+  rw [hk] at g1
+  have hv : e1.2 = e2.2 := Option.some.inj (g1.symm.trans g2)
+  exact Prod.ext hk hv
+
 /-- non-vacuity: three arrivals from two addresses, the repeated one replaced -/
 example :
     let s := run .fixed (init false 9)
